@@ -940,6 +940,25 @@ def _rule_other_subscripts(prog, chk, R, skip_ids):
 
     # premise of the index-map idiom, per (index member M, table member F): every entry M[k] is F.size() at the append
     def map_premise(M, F):
+        def norm(t):
+            return t.replace('->', '.').replace(' ', '').replace('(*', '').replace(')', '')
+
+        def names_of(f, e):
+            """(root text, [member names], condition text) an lvalue stands for: a member access, or a reference local bound to
+            `c ? r.A : r.B` (both branches on the same record)"""
+            e = p13(e)
+            if SX.is_node(e) and e.get('k') == 'member':
+                return norm(SX.show(p13(e['base']))), [e['name']], ''
+            if SX.is_node(e) and e.get('k') == 'ref':
+                d = [v for v in SX.walk(f.body, into_lambdas=False) if v['k'] == 'var' and v['id'] == e.get('id') and v.get('isref')]
+                i0 = p13(d[0].get('init')) if d and SX.is_node(d[0].get('init')) else None
+                if SX.is_node(i0) and i0.get('k') == 'cond':
+                    t_, f_ = p13(i0['t']), p13(i0['f'])
+                    if SX.is_node(t_) and SX.is_node(f_) and t_.get('k') == 'member' and f_.get('k') == 'member' and norm(SX.show(p13(t_['base']))) == norm(SX.show(p13(f_['base']))):
+                        return norm(SX.show(p13(t_['base']))), [t_['name'], f_['name']], SX.show(i0['c'])
+                if SX.is_node(i0) and i0.get('k') == 'member':
+                    return norm(SX.show(p13(i0['base']))), [i0['name']], ''
+            return None, [], ''
         sites = 0
         for f in fns:
             for blk in SX.walk(f.body, into_lambdas=False):
@@ -951,19 +970,27 @@ def _rule_other_subscripts(prog, chk, R, skip_ids):
                     if not w:
                         continue
                     l = SX.strip(w[0])
-                    # M[key] = v
-                    if SX.is_node(l) and l.get('k') in ('opcall', 'index') and any(y.get('k') == 'member' and y.get('name') == M for y in SX.walk(l)) and \
-                            not (l.get('k') == 'member'):
-                        tgt = [y for y in SX.walk(l) if y.get('k') == 'member' and y.get('name') == M][0]
-                        root = SX.show(p13(tgt['base']))
+                    # I[key] = v  with I standing for M (directly or through a paired reference local)
+                    if SX.is_node(l) and l.get('k') in ('opcall', 'index'):
+                        tgt = p13(l['args'][0]) if l.get('k') == 'opcall' and l.get('args') else p13(l.get('base'))
+                        root, inames, icond = names_of(f, tgt)
+                        if M not in inames:
+                            continue
                         v = SX.show(p13(w[1]))
                         prev = blk['body'][i - 1] if i else None
                         nxt = blk['body'][i + 1] if i + 1 < len(blk['body']) else None
                         pw = SX.write_target(prev.get('e')) if prev and prev.get('k') == 'expr' else None
-                        ok1 = bool(pw) and SX.show(SX.strip(pw[0])) == v and SX.show(p13(pw[1])).replace(' ', '') == ('%s->%s.size()' % (root, F)).replace(' ', '')
+                        ok1 = False
+                        if pw and SX.show(SX.strip(pw[0])) == v:
+                            sz = p13(pw[1])
+                            if SX.is_node(sz) and sz.get('k') == 'mcall' and SX.short(sz.get('callee', '')) == 'size':
+                                r2, tnames, tcond = names_of(f, sz.get('obj'))
+                                ok1 = r2 == root and len(tnames) == len(inames) and tcond == icond and tnames[inames.index(M)] == F
                         ne = p13(nxt.get('e')) if nxt and nxt.get('k') == 'expr' else None
-                        ok2 = SX.is_node(ne) and ne.get('k') == 'mcall' and SX.short(ne.get('callee', '')) in ('push_back', 'emplace_back') and \
-                            SX.show(p13(ne.get('obj'))).replace(' ', '') == ('%s->%s' % (root, F)).replace(' ', '')
+                        ok2 = False
+                        if SX.is_node(ne) and ne.get('k') == 'mcall' and SX.short(ne.get('callee', '')) in ('push_back', 'emplace_back'):
+                            r3, pnames, pcond = names_of(f, ne.get('obj'))
+                            ok2 = r3 == root and len(pnames) == len(inames) and pcond == icond and pnames[inames.index(M)] == F
                         if not (ok1 and ok2):
                             return None
                         sites += 1
@@ -972,12 +999,12 @@ def _rule_other_subscripts(prog, chk, R, skip_ids):
                         r = p13(w[1])
                         if not (SX.is_node(r) and r.get('k') == 'member' and r.get('name') == M):
                             return None
-                        xl, xr = SX.show(p13(l['base'])), SX.show(p13(r['base']))
+                        xl, xr = norm(SX.show(p13(l['base']))), norm(SX.show(p13(r['base'])))
                         paired = False
                         for o in blk['body'][max(0, i - 2):i + 3]:
                             ow = SX.write_target(o.get('e')) if o.get('k') == 'expr' else None
                             if ow and SX.is_node(SX.strip(ow[0])) and SX.strip(ow[0]).get('k') == 'member' and SX.strip(ow[0]).get('name') == F and \
-                                    SX.show(p13(SX.strip(ow[0])['base'])) == xl and SX.is_node(p13(ow[1])) and p13(ow[1]).get('name') == F and SX.show(p13(p13(ow[1])['base'])) == xr:
+                                    norm(SX.show(p13(SX.strip(ow[0])['base']))) == xl and SX.is_node(p13(ow[1])) and p13(ow[1]).get('name') == F and norm(SX.show(p13(p13(ow[1])['base']))) == xr:
                                 paired = True
                         if not paired:
                             return None
